@@ -122,6 +122,9 @@ func (e *Enc) define(t T, hint string) T {
 	if !strings.ContainsAny(t.E, " (") || e.quantDepth > 0 {
 		return t
 	}
+	if _, _, ok := splitPlusConst(t.E); ok && t.S.K == SInt {
+		return t // keep `base + constant` offsets visible (see elemIndex)
+	}
 	n := e.fresh(hint)
 	e.emit(fmt.Sprintf("(define-fun %s () %s %s)", n, t.S, t.E))
 	return T{t.S, n}
